@@ -166,6 +166,12 @@ SPECS["C07"] = {
          "thorough": {"params": [1, 2, 3], "bound": 2, "flags": ["-preempt", "1", "-par", "5"], "procs": 3},
          "expect_reach": ["end", "valid", "short-frame", "bad-header", "other-op", "handler-fails"]},
     ])],
+    "gen_groups": [
+        {"program": "c02_basic", "pkg": "c02basic", "entries": [
+            {"name": "VerifC07_GeneratedPubSub", "flags": ["-max-decisions", "3000"], "quick": {"params": [0, 1], "bound": 1}, "thorough": {"params": [0, 1, 2], "bound": 1, "flags": ["-par", "4"]},
+             "expect_reach": ["end", "own", "other-operation", "other-topic"]},
+        ]},
+    ],
     "level_text": "Bounded symbolic execution with threads of the real publish path (FStandardClient.Publish/prepareMessage, fNatsPublisherTransport.Publish) and the real subscriber transports (fNatsSubscriberTransport.Subscribe/putMessageToWorkerQueue/worker/Unsubscribe; fStompSubscriberTransport.Subscribe/processMessages/ackMessage/Unsubscribe) with a receive callback of the generated shape (ReadRequestHeader, ReadMessageBegin, op check, payload, handler): for every sequence of n messages, each one valid (symbolic payload and header), shorter than 4 bytes, with a corrupt header block, for another operation, on another topic, or (STOMP) with a failing handler, the handler runs exactly once per valid message of this topic and operation, in publish order, with equal payload, header and correlation id; bad messages never stop later ones (a lost message is a deadlock of the harness); STOMP acks exactly the successfully handled messages once; nothing published after Unsubscribe returned reaches the handler; no goroutine panics; two subscribers made by one factory (builder-made or plain) on different topics each receive exactly their own messages, and unsubscribing one leaves the other working. Outside: real brokers, multi-worker ordering, generated recv code (hand-written equivalent here).",
     "level_note": "Trusted: go/ssa, gose interpreter and scheduler model, z3. " + NATS_NOTE + SCHED_NOTE,
     "bounds": {"quick": "n <= 2 messages, payload 1 byte, header 1 byte, delay bound 1", "thorough": "n <= 3 messages, payload 2 bytes"},
@@ -210,6 +216,13 @@ SPECS["C16"] = {
         {"name": "VerifC16_SharedSlice", "quick": {"params": [0]}, "thorough": {"params": [0]}, "expect_reach": ["end", "with-providers", "added-later"]},
         {"name": "VerifC16_ErrorOnly", "quick": {"params": [0]}, "thorough": {"params": [0]}},
     ])],
+    "gen_groups": [
+        {"program": "c02_basic", "pkg": "c02basic", "entries": [
+            {"name": "VerifC16_GeneratedWiring", "flags": ["-max-decisions", "3000"], "quick": {"params": [0, 1, 2, 3], "procs": 4}, "thorough": {"params": [0, 1, 2, 3], "procs": 4},
+             "expect_reach": ["end", "client", "processor", "publisher", "subscriber"]},
+            {"name": "VerifC16_GeneratedSubscribers", "flags": ["-max-decisions", "3000"], "quick": {"params": [0]}, "thorough": {"params": [0]}, "expect_reach": ["end", "spare-capacity"]},
+        ]},
+    ],
     "level_text": "Bounded symbolic execution of the real middleware machinery (NewMethod, composeMiddleware, newInvocationHandler, Method.Invoke, Method.AddMiddleware, FServiceProvider.GetMiddleware) wired exactly as every generated constructor wires it (middleware = append(middleware, provider.GetMiddleware()...); NewMethod(target, target.method, name, middleware)), with a constructor middleware and b provider middleware (a,b <= 2; thorough <= 3), each one logging entry/exit and - under symbolic flags - rewriting the argument and/or the result with a symbolic suffix, the caller's variadic slice with or without spare capacity, optionally one AddMiddleware afterwards, target returning a value or an error: the target is invoked exactly once; every middleware is entered and left exactly once; entry order is [added later] provider[b-1..0] constructor[a-1..0], exit order the reverse; the target sees the argument with all rewrites applied outermost-first and the caller sees the result with all rewrites innermost-first; an error passes through; two methods built one after the other from the same variadic slice (with 0..2 spare capacity, with or without provider middleware, with or without middleware added later) each run exactly their own chain; for methods whose only result is an error a middleware that rewrites the error of one call never leaks into another call. Outside: the generated constructors themselves (same statements, hand-written), publisher/subscriber wiring (FScopeProvider.GetMiddleware is the same copy), more than 3+3 middleware.",
     "level_note": "Trusted: go/ssa, gose interpreter, z3; reflect is an engine boundary (ValueOf/Call/Interface/TypeOf/MethodByName implemented by the engine with Go's argument-assignability and zero-Value panics).",
     "bounds": {"quick": "a,b <= 2 (7 of the 9 combinations)", "thorough": "a,b <= 3"},
